@@ -156,8 +156,60 @@ def scan(repo, fi):
                 txt = norm(e)
                 if "lock" in txt.lower() and not isinstance(e, ast.Call):
                     out.append(Effect("lock", n, fi, f"with {txt}"))
+                elif not isinstance(e, ast.Call) and sync_object(repo, fi, e):
+                    out.append(Effect("lock", n, fi, f"with {txt} ({sync_object(repo, fi, e)})"))
         elif isinstance(n, ast.Global):
             out.append(Effect("global_decl", n, fi, ",".join(n.names)))
+    return out
+
+
+SYNC_CTORS = {"threading.Lock", "threading.RLock", "threading.Semaphore", "threading.BoundedSemaphore", "threading.Condition", "_thread.allocate_lock",
+              "multiprocessing.Lock", "multiprocessing.RLock", "multiprocessing.Semaphore", "multiprocessing.BoundedSemaphore", "asyncio.Lock", "asyncio.Semaphore",
+              "xarray.backends.locks.SerializableLock", "dask.utils.SerializableLock"}
+
+
+def sync_object(repo, fi, expr, _depth=0):
+    """the synchronisation primitive a name denotes (module-level object created by a threading / multiprocessing constructor), or None"""
+    if _depth > 3:
+        return None
+    if isinstance(expr, ast.Name):
+        try:
+            r = repo.resolve_name(fi, expr.id)
+        except Exception:
+            return None
+        if r.kind == "value" and len(r.exprs) == 1 and isinstance(r.exprs[0], ast.Call):
+            c = r.exprs[0]
+            rr = repo.resolve_expr(r.mod, c.func) if isinstance(c.func, (ast.Name, ast.Attribute)) else None
+            if rr is not None and rr.kind == "external" and rr.fq in SYNC_CTORS:
+                return rr.fq
+    return None
+
+
+def decorator_locks(repo, fi):
+    """locks a function acquires around its whole body through a decorator of the package: @deco(<sync object>) where deco's
+    wrapper runs the function inside `with <that parameter>:` -> [description]"""
+    out = []
+    for d in getattr(fi.node, "decorator_list", []):
+        if not isinstance(d, ast.Call) or not isinstance(d.func, (ast.Name, ast.Attribute)):
+            continue
+        try:
+            r = repo.resolve_expr(fi.module, d.func)
+        except Exception:
+            continue
+        if r.kind != "func":
+            continue
+        deco = r.func
+        params = deco.positional_params
+        bound = dict(zip(params, d.args))
+        bound.update({k.arg: k.value for k in d.keywords if k.arg})
+        for w in ast.walk(deco.node):
+            if isinstance(w, (ast.With, ast.AsyncWith)):
+                for it in w.items:
+                    e = it.context_expr
+                    if isinstance(e, ast.Name) and e.id in bound:
+                        kind = sync_object(repo, fi.module, bound[e.id])
+                        if kind or "lock" in norm(bound[e.id]).lower():
+                            out.append(f"@{norm(d)[:50]} holds {norm(bound[e.id])} ({kind or 'lock'}) around the call")
     return out
 
 
